@@ -2429,20 +2429,27 @@ import fcntl
 @contextlib.contextmanager
 def runtime_lock(max_wait):
     """machine-wide lock: only one real BQSKit runtime at a time (fixed ports);
-    yields False when it could not be taken within max_wait seconds"""
+    yields False when it could not be taken within max_wait seconds.  The wait
+    is a BLOCKING flock interrupted by an alarm (a polling non-blocking attempt
+    starves behind the blocking waiters of other checks)."""
     f = open('/tmp/bqskit_runtime.lock', 'w')
-    t0 = time.time()
     got = False
     try:
-        while True:
-            try:
-                fcntl.flock(f, fcntl.LOCK_EX | fcntl.LOCK_NB)
-                got = True
-                break
-            except OSError:
-                if time.time() - t0 > max_wait:
-                    break
-                time.sleep(0.5)
+        try:
+            fcntl.flock(f, fcntl.LOCK_EX | fcntl.LOCK_NB)
+            got = True
+        except OSError:
+            if max_wait > 0:
+                old = signal.signal(signal.SIGALRM, _alarm)
+                signal.alarm(int(max_wait))
+                try:
+                    fcntl.flock(f, fcntl.LOCK_EX)
+                    got = True
+                except Timeout:
+                    pass
+                finally:
+                    signal.alarm(0)
+                    signal.signal(signal.SIGALRM, old)
         yield got
     finally:
         if got:
